@@ -114,6 +114,15 @@ def points(tier: str) -> List[Dict[str, Any]]:
             g2 = int((0.75 * 4500 - 0.75 * 1125) * 1000 - 4000 + d * delay)
             pts.append({"delay": delay, "forced": None, "jitter": 0.0, "types": "a",
                         "events": [(100_000, ("ptr", X, 4500)), (4000, ("ptr", X, 0)), (g2, ("ptr", X, 1125))]})
+    # a second browser of the same instance (one type only) wakes up in the same instants and asks the shared type first or
+    # second: the question history then suppresses that question for the other browser - which must still ask for its other type
+    for delay in (1000, 10_000):
+        for order in ("first", "second"):
+            for ttl in (4500, 1200):
+                pts.append({"delay": delay, "forced": None, "jitter": 0.0, "types": "ab", "companion": order,
+                            "events": [(20_000, ("ptr", X, ttl)), (0, ("ptr", Z, ttl))]})
+                pts.append({"delay": delay, "forced": None, "jitter": 0.0, "types": "ab", "companion": order,
+                            "events": [(20_000, ("ptr", X, ttl)), (0, ("ptr", Z, ttl)), (900_000, ("ptr", X, ttl))]})
     # pointers already cached when the browser is created (younger / older than half their TTL, shortly before it starts)
     for delay in (1000, 10_000):
         for pre in ([(30_000, ("ptr", X, 4500))], [(30_000, ("ptr", X, 1200))], [(1_000, ("ptr", X, 4500))],
@@ -168,7 +177,11 @@ def run_point(p: Dict[str, Any], verbose: bool = False) -> Tuple[Optional[Dict[s
         for gap, (kind, inst, ttl) in script:
             if gap == "start":
                 w.advance_to_ms(t_start)
+                if p.get("companion") == "first":
+                    AsyncServiceBrowser(zc, [TA], listener=Lst(w), delay=delay, question_type=forced)
                 br = AsyncServiceBrowser(zc, types, listener=lst, delay=delay, question_type=forced)
+                if p.get("companion") == "second":
+                    AsyncServiceBrowser(zc, [TA], listener=Lst(w), delay=delay, question_type=forced)
                 w.settle()
                 continue
             if isinstance(gap, tuple):
